@@ -1,11 +1,15 @@
 #!/bin/bash
 # Runs every seeded change against its property's quick check (scratch worktree, never /repo) and
 # prints one line per mutant: CAUGHT (exit 1 with a VIOLATION line) or MISSED.
+# SWEEP_JOBS mutants run at a time (default 4); the lines come out in completion order.
 cd /verif
-for d in seeded/*/; do
+one() {
+  d=$1; tier=$2
   n=$(basename $d); p=${n%-*}
-  out=$(scripts/mutant_scratch.sh $d/patch.diff $p ${1:-quick} 2>&1)
+  out=$(scripts/mutant_scratch.sh $d/patch.diff $p $tier 2>&1)
   rc=$(echo "$out" | grep -a -o 'mutant-result.*exit=[0-9]*' | grep -o '[0-9]*$')
   nv=$(echo "$out" | grep -a -c '^VIOLATION')
   if [ "$rc" = "1" ] && [ "$nv" -gt 0 ]; then echo "CAUGHT $n ($nv violation keys)"; else echo "MISSED $n rc=$rc"; fi
-done
+}
+export -f one
+ls -d seeded/*/ | xargs -P ${SWEEP_JOBS:-4} -I{} bash -c "one {} ${1:-quick}"
